@@ -182,6 +182,11 @@ impl AssemblyWindow {
         }
     }
 
+    #[cfg(feature = "uflow_verif")]
+    pub fn verif_alloc(&self) -> usize {
+        self.alloc
+    }
+
     pub fn clear(&mut self, idx: usize) {
         match self.window[idx] {
             WindowEntry::Open => {
